@@ -30,11 +30,15 @@ namespace nmtools::index
                 at(res,0_ct) = n;
             else {
                 using element_t = meta::get_index_element_type_t<return_t>;
-                auto shape_take_impl = [&](auto i){
-                    using common_t = meta::promote_index_t<axis_t,decltype(i)>;
-                    at(res,i) = ((common_t)i == (common_t)axis) ? (element_t)n : (element_t)at(shape,i);
-                };
                 [[maybe_unused]] auto dim = len(shape);
+                // negative axis counts from the last axis (as in numpy)
+                auto m_axis = static_cast<nm_index_t>(axis);
+                if (m_axis < 0) {
+                    m_axis += static_cast<nm_index_t>(dim);
+                }
+                auto shape_take_impl = [&](auto i){
+                    at(res,i) = (static_cast<nm_index_t>(i) == m_axis) ? (element_t)n : (element_t)at(shape,i);
+                };
                 if constexpr (meta::is_resizable_v<return_t>)
                     res.resize(dim);
 
@@ -79,14 +83,32 @@ namespace nmtools::index
             // TODO: provide overload that already compute strides
             auto strides = compute_strides(shape);
             auto dst_i   = at(index,0);
-            auto offset  = at(indices,dst_i);
+            // negative index counts from the end (as in numpy)
+            auto m_offset = static_cast<nm_index_t>(at(indices,dst_i));
+            if (m_offset < 0) {
+                nm_index_t size = 1;
+                for (nm_size_t k=0; k<(nm_size_t)dim; k++) {
+                    size *= static_cast<nm_index_t>(at(shape,k));
+                }
+                m_offset += size;
+            }
+            auto offset = static_cast<nm_size_t>(m_offset);
             impl::compute_indices(res, offset, shape, strides);
         }
         else {
+            // negative axis / negative index count from the end (as in numpy)
+            auto m_axis = static_cast<nm_index_t>(axis);
+            if (m_axis < 0) {
+                m_axis += static_cast<nm_index_t>(dim);
+            }
             auto take_impl = [&](auto i){
                 auto dst_i = at(index,i);
-                using common_t = meta::promote_index_t<axis_t,decltype(i)>;
-                at(res, i) = ((common_t)i == (common_t)axis) ? at(indices,dst_i) : dst_i;
+                if (static_cast<nm_index_t>(i) == m_axis) {
+                    auto src_i = static_cast<nm_index_t>(at(indices,dst_i));
+                    at(res, i) = (src_i < 0) ? (src_i + static_cast<nm_index_t>(at(shape,i))) : src_i;
+                } else {
+                    at(res, i) = dst_i;
+                }
             };
             if constexpr (meta::is_fixed_index_array_v<index_t>) {
                 constexpr auto DIM = meta::len_v<index_t>;
